@@ -1,5 +1,6 @@
 """Shared pieces of the engine-level properties (driver A)."""
 import hashlib
+import os
 
 from sim import det
 from sim.det import CLOCK
@@ -95,6 +96,13 @@ class FingerprintMonitor:
 
 
 def base_stats(ex, family, fp=None, extra_shape=""):
+    st = _base_stats(ex, family, fp, extra_shape)
+    if os.environ.get("VERIF_DIGEST"):
+        st["digest"] = ex.world.digest() if ex.world.cs is not None else "down"
+    return st
+
+
+def _base_stats(ex, family, fp=None, extra_shape=""):
     w = ex.world
     shape = canon_user_ops(ex.plan) + "|" + schedule_sig(ex.plan) + "|" + str(ex.cfg.get("flavour")) + extra_shape
     faults = {}
